@@ -92,7 +92,9 @@ func c17Run(r *core.Run) {
 	switch t.Draw(5) {
 	case 0:
 	case 1:
-		tsm.Entries["rtmr2-boot"] = &world.TSMEntry{Index: 2}
+		// an entry somebody else made: its name is none of the library's business, its index attribute is
+		name := []string{"rtmr2-boot", "boot-measurements", "entry7", "rtmr3-misnamed"}[t.Draw(4)]
+		tsm.Entries[name] = &world.TSMEntry{Index: 2}
 		r.Probe("preexisting_entry_same_index")
 	case 2:
 		tsm.Entries["aaa-unbound"] = &world.TSMEntry{Index: -1}
@@ -104,8 +106,13 @@ func c17Run(r *core.Run) {
 		tsm.Entries["zzz-unreadable"] = &world.TSMEntry{Index: 1, Unreadable: true}
 		r.Probe("preexisting_entry_unreadable_index")
 	case 4:
+		foreign := t.Bool()
 		for i := 0; i < 4; i++ {
-			tsm.Entries[fmt.Sprintf("rtmr%d-pre", i)] = &world.TSMEntry{Index: i}
+			n := fmt.Sprintf("rtmr%d-pre", i)
+			if foreign {
+				n = fmt.Sprintf("measurement-register-%c", 'a'+byte(3-i))
+			}
+			tsm.Entries[n] = &world.TSMEntry{Index: i}
 		}
 	}
 	faulty := r.Index%3 == 2 // fault-injecting configurations run apart from fault-free ones
